@@ -109,7 +109,7 @@ def queries(real):
         out[E.loc_str(key)] = (
             frozenset(str(x) for x in real.m.find_deps([r])),
             frozenset(str(x) for x in r._tasks),
-            str(r._expr),
+            E.norm_zero_text(str(r._expr)),
         )
     return out
 
